@@ -32,6 +32,7 @@ type gscen struct {
 	Rel                 bool // the file is named relative to the working directory, after "--"
 	Link                bool // the pre-existing target is a symbolic link to the input
 	Extra               bool // a second input file, named like the temporary file of the first, is given as second argument
+	Alias               string // gxz is called by this name (a symbolic link); the flags the name implies are not given
 }
 
 func (s gscen) String() string {
@@ -48,6 +49,9 @@ func (s gscen) String() string {
 	}
 	if s.Extra {
 		rel += " second-input-named-like-temporary"
+	}
+	if s.Alias != "" {
+		rel += " called-as-" + s.Alias
 	}
 	return fmt.Sprintf("%s %s k=%v f=%v c=%v name=%s input=%s existing=%v%s", op, s.Format, s.Keep, s.Force, s.Stdout, s.Name, s.Input, s.Existing, rel)
 }
@@ -192,6 +196,19 @@ var extraContent = []byte("SECOND INPUT FILE OF THE RUN; its name happens to be 
 
 func (s gscen) args(dir string) []string {
 	var a []string
+	if s.Alias != "" {
+		// xzcat / lzcat: decompress to standard output; unxz / unlzma: decompress; lzma: .lzma format
+		if s.Keep {
+			a = append(a, "-k")
+		}
+		if s.Force {
+			a = append(a, "-f")
+		}
+		if !s.Decomp {
+			a = append(a, s.Preset)
+		}
+		return append(a, filepath.Join(dir, s.Name))
+	}
 	if s.Decomp {
 		a = append(a, "-d")
 	}
@@ -277,6 +294,13 @@ func c10Scenarios(c *ev.Ctx) []gscen {
 		add(gscen{Format: "lzma", Name: "data.txt", Input: "small", Existing: true, Force: true, Link: true, Keep: true})
 		add(gscen{Decomp: true, Format: "xz", Name: "data.xz", Input: "small", Existing: true, Force: true, Link: true})
 		add(gscen{Decomp: true, Format: "lzma", Name: "data.lzma", Input: "small", Existing: true, Link: true})
+		// called by another name
+		add(gscen{Alias: "xzcat", Decomp: true, Stdout: true, Format: "xz", Name: "data.xz", Input: "small"})
+		add(gscen{Alias: "lzcat", Decomp: true, Stdout: true, Format: "lzma", Name: "data.lzma", Input: "small"})
+		add(gscen{Alias: "gxzcat", Decomp: true, Stdout: true, Format: "xz", Name: "data.xz", Input: "truncated"})
+		add(gscen{Alias: "unxz", Decomp: true, Format: "xz", Name: "data.xz", Input: "small"})
+		add(gscen{Alias: "unlzma", Decomp: true, Format: "lzma", Name: "data.lzma", Input: "small", Keep: true})
+		add(gscen{Alias: "lzma", Format: "lzma", Name: "data.txt", Input: "small"})
 		add(gscen{Format: "xz", Name: "data.txz", Input: "small"})
 		add(gscen{Decomp: true, Format: "xz", Name: "data.txz", Input: "small"})
 		add(gscen{Decomp: true, Format: "lzma", Name: "data.tlz", Input: "small", Stdout: true})
@@ -294,6 +318,12 @@ func c10Scenarios(c *ev.Ctx) []gscen {
 		for fl := 0; fl < 4; fl++ {
 			add(gscen{Format: f, Name: "data.txt", Input: "small", Existing: true, Link: true, Keep: fl&1 != 0, Force: fl&2 != 0})
 			add(gscen{Decomp: true, Format: f, Name: "data." + f, Input: "small", Existing: true, Link: true, Keep: fl&1 != 0, Force: fl&2 != 0})
+		}
+		cat, un := map[string]string{"xz": "xzcat", "lzma": "glzcat"}[f], map[string]string{"xz": "ungxz", "lzma": "unlzma"}[f]
+		for _, in := range []string{"small", "big", "corrupt", "truncated"} {
+			add(gscen{Alias: cat, Decomp: true, Stdout: true, Format: f, Name: "data." + f, Input: in})
+			add(gscen{Alias: un, Decomp: true, Format: f, Name: "data." + f, Input: in})
+			add(gscen{Alias: un, Decomp: true, Format: f, Name: "data." + f, Input: in, Existing: true})
 		}
 		add(gscen{Decomp: true, Format: f, Name: "--." + f, Input: "small", Rel: true})
 		add(gscen{Format: f, Name: "-d", Input: "small", Rel: true})
@@ -363,7 +393,7 @@ func checkC10(c *ev.Ctx) {
 		s := scens[i]
 		dir := filepath.Join(base, s.ID+"-rec")
 		s.setup(dir, c.Seed)
-		recs[i] = runGxz(c, dir, s.args(dir), inject{}, s.Stdout, nil)
+		recs[i] = runGxz(c, dir, s.args(dir), inject{Argv0: s.Alias}, s.Stdout, nil)
 		os.RemoveAll(dir)
 	})
 	for i, s := range scens {
@@ -409,14 +439,14 @@ func checkC10(c *ev.Ctx) {
 		}
 		dir := filepath.Join(base, fmt.Sprintf("%s-%d", s.ID, ji))
 		cin, plain, target, expectOK := s.setup(dir, c.Seed)
-		res := runGxz(c, dir, s.args(dir), j.inj, s.Stdout, nil)
+		res := runGxz(c, dir, s.args(dir), aliased(j.inj, s), s.Stdout, nil)
 		snap := dirSnapshot(dir)
 		// crash recovery: after a run that was killed the user runs the same command again in
 		// the directory as it was left (debris included); judged below
 		var res2 *gxzResult
 		var snap2 map[string][]byte
 		if j.inj.Mode == "kill-after" && res.Killed && !s.Stdout {
-			r2 := runGxz(c, dir, s.args(dir), inject{}, false, nil)
+			r2 := runGxz(c, dir, s.args(dir), inject{Argv0: s.Alias}, false, nil)
 			res2, snap2 = &r2, dirSnapshot(dir)
 		}
 		os.RemoveAll(dir)
@@ -675,4 +705,9 @@ func modeName(j inject) string {
 		return "fail-persistent"
 	}
 	return j.Mode
+}
+
+func aliased(j inject, s gscen) inject {
+	j.Argv0 = s.Alias
+	return j
 }
